@@ -31,6 +31,20 @@ class C12(Prop):
     assumptions = ["float rounding outside the model; affine maps and weight factors are dyadic so that they are exact in floats"]
 
     def generate(self, tier, rng):
+        for k in range(250 if tier == "quick" else 2500):
+            # narrow / unsigned / boolean observation dtypes (long violating runs -> large pooled weights), all functionals
+            f = rng.choice(["mean", "mean", "quantile", "median", "expectile"])
+            lv = rng.choice(ic.DYADIC_LEVELS[:9])
+            c = ic.gen_dtype_case(rng, f, lv)
+            if f == "mean" and rng.random() < 0.3 and c["ydtype"] in ("int8", "uint8", "bool"):
+                n = rng.choice([140, 300])  # a pooled block of more than 127 / 255 observations
+                c["y"] = [str(v) for v in sorted([rng.randint(0, 1) for _ in range(n)], reverse=True)]
+                c["w"] = None
+                c["wdtype"] = None
+            if f == "quantile" and ic.float_rank_divergent(lv, len(c["y"])):
+                continue
+            c["stream"] = "dtype"
+            yield c
         N = 1500 if tier == "quick" else 12000
         for k in range(N):
             f = rng.choice(["mean", "mean", "quantile", "median", "expectile"])
@@ -77,6 +91,8 @@ class C12(Prop):
         f, lv, inc = case["f"], ic.level_float(case["level"]), case["inc"]
         rel = case["stream"]
         out = dict(base)
+        if rel == "dtype":
+            return out
         try:
             if rel == "idem":
                 out["rel_x"], out["rel_r"] = _fit(np.array(base["x"]), w, inc, f, lv)
@@ -132,6 +148,8 @@ class C12(Prop):
             return f"transformed call raised {io['rel_err']}"
         rel = case["stream"]
         x, r = io["x"], io["r"]
+        if rel == "dtype":
+            return None
 
         def same(xa, xb, what):
             if len(xa) != len(xb):
